@@ -272,3 +272,62 @@ def c09(work, tier, seed):
     rep.assumptions = ["NaN evaluations are outside the domain (C20 establishes evaluations are finite)",
                        "the mate distance is an int8: IncrementMateDistance is judged for |k| <= 126"]
     return rep.finish(work)
+
+
+# ----------------------------------------------------------------------------------------
+@check("C06")
+def c06(work, tier, seed):
+    rep = Report("C06", tier, seed)
+    vh = vlib.build_harness(work)
+    quick = tier == "quick"
+    mc_chess(work, rep, tier, ["AttackSymmetry"])
+
+    jobs = []
+    sh = 8 if quick else 16
+    for i in range(sh):
+        jobs.append(("lines%d" % i, ["attacks", "-mode", "lines", "-shard", i, "-shards", sh]))
+    jobs.append(("tables", ["attacks", "-mode", "tables", "-seed", seed, "-n", 500 if quick else 5000]))
+    rs = 2 if quick else 8
+    for i in range(rs):
+        jobs.append(("random%d" % i, ["attacks", "-mode", "random", "-seed", seed * 100 + i, "-n", 100 if quick else 2000, "-shard", 0, "-shards", 1]))
+    if not quick:
+        for i in range(32):
+            jobs.append(("joint%d" % i, ["attacks", "-mode", "joint", "-shard", i, "-shards", 32]))
+
+    def one(job):
+        name, args = job
+        trace = work.path(name + ".ndjson")
+        vlib.run_harness(work, vh, args + ["-out", trace])
+        return vlib.validate_trace(work, "TraceBoard", ["C06"], trace, timeout=3400, heap="4g")
+    results = vlib.run_many(one, jobs)
+    cases = 0
+    rows = 0
+    for r in results:
+        for line in open(r.trace):
+            if '"op":"attackrow"' in line:
+                rows += 1
+                cases += line.count('"occ"')
+    rep.sample(vlib.read_line(results[0].trace, 1)[:700] + " ...")
+    vlib.absorb_trace_results(rep, results)
+    rep.traces += len(results)
+    rep.extra["attack_cases"] = cases
+    rep.extra["attack_rows"] = rows
+    expect_rows = 64 * 4
+    lines_rows = sum(1 for r in results if "lines" in r.trace for line in open(r.trace))
+    if lines_rows != expect_rows:
+        raise Inconclusive("C06: expected %d single-line rows, got %d" % (expect_rows, lines_rows))
+
+    # derived queries on positions
+    ev = "views,derived"
+    if quick:
+        jobs2 = play_jobs(seed, 6, 6, 60, ev, 400) + tree_jobs(seed, 8, 1, ev)
+    else:
+        jobs2 = play_jobs(seed, 16, 200, 120, ev, 10000) + tree_jobs(seed, 16, 2, "derived") + mode_jobs("synthetic", seed, 4, 3000, 0, ev)
+    board_traces(work, vh, rep, ["C06"], jobs2)
+    require(rep, ["view-check", "view-mate", "pin"], "C06")
+    rep.exhaustive = True
+    rep.extra["exhaustive_space"] = ("every occupancy of each single line through each of the 64 squares (own square empty and occupied) for rook, bishop, queen; king/knight/pawn tables for all 64 squares"
+                                     + ("" if quick else "; every joint occupancy of the two rook lines and of the two bishop lines through each square"))
+    rep.assumptions = ["derived queries (attacked/defended/check/mate/capturers/pins) are sampled over positions, not exhaustive",
+                       "the enumeration's completeness is counted by TLC (2 * 2^n cases per line row) and by the driver (256 rows)"]
+    return rep.finish(work)
